@@ -209,7 +209,35 @@ def compute(tier, seed):
         if c["id"] - 2000000 in ctl:
             ctl[c["id"]] = ctl[c["id"] - 2000000]
     log(f"verdict[{tier}]: {len(depcases)} of the cases repeated in non-primary packages")
-    allcases = allcases + relcases + depcases
+    # ... and, for the declarations whose values lie outside i64 (C12), with rustc's own `overflowing_literals` lint allowed on
+    # the enum: for a repr of at most 64 bits rustc rejects such a literal only through that (deny-by-default) lint -- with
+    # the lint allowed (bit-pattern code, `--cap-lints allow` for registry dependencies) the derive's own check is all there is
+    lintcases = [dict(c, id=c["id"] + 3000000, profile="allowlint", ctl="any", note=c["note"] + " [overflowing_literals allowed]")
+                 for c in allcases if c["prop"] == "C12" and "i64" in c["note"] and c["src"]["count"] == 0]
+    # (the same items once more under reprs of at most 64 bits, which cannot hold the value at all: the literal keeps its
+    #  spelling, only the repr attribute changes -- the item stays outside the domain, whatever rustc makes of the literal)
+    narrow = []
+    for c in lintcases:
+        for j, nr in enumerate(("i32", "u16", "i64")):
+            narrow.append(dict(c, id=c["id"] + 100000 * (j + 1), narrow=nr, note=c["note"] + f" [repr({nr})]"))
+    lintcases += narrow
+
+    def lint_lines(c):
+        lines = render_verdict.render(c, c["_repr"], derive=True)
+        if c.get("narrow"):
+            lines = [ln.replace(f"#[repr({c['_repr']})]", f"#[repr({c['narrow']})]") for ln in lines]
+        k = next((j for j, ln in enumerate(lines) if ln.startswith("#[derive(")), 0)
+        return lines[:k] + ["#[allow(overflowing_literals)]"] + lines[k:]
+    chunks_l = [[] for _ in range(NCRATES)]
+    for i, c in enumerate(lintcases):
+        chunks_l[i % NCRATES].append((c["id"], lint_lines(c)))
+    wsl, spl = write_ws(root, "vl", chunks_l, True)
+    rejl = peel(wsl, spl, "derive build (lint allowed)") if lintcases else {}
+    for c in lintcases:
+        if c["id"] in rejl:
+            rej[c["id"]] = rejl[c["id"]]
+    log(f"verdict[{tier}]: {len(lintcases)} of the C12 cases repeated with overflowing_literals allowed")
+    allcases = allcases + relcases + depcases + lintcases
     drift = pipeline_drift(ptrace)
     trace = os.path.join(root, "verdict.ndjson")
     shards, n, k = [], 0, 0
@@ -237,7 +265,7 @@ def compute(tier, seed):
         c = byid[v["case"]]
         out.append({"props": v["props"], "why": v["why"], "case": v["case"], "msg": v["msg"], "note": c["note"], "profile": c.get("profile", "dev"),
                     "attrs": " ".join(render_verdict.cfg_attr_lines(c["cfg"])), "repr": c["_repr"],
-                    "rust": "\n".join(render_verdict.render(c, c["_repr"], True)[:40])})
+                    "rust": "\n".join((lint_lines(c) if c.get("profile") == "allowlint" else render_verdict.render(c, c["_repr"], True))[:40])})
     cov = collections.Counter(c["prop"] for c in allcases)
     notes = {p: dict(collections.Counter(c["note"] for c in allcases if c["prop"] == p).most_common(40)) for p in PROPS}
     samples = {}
